@@ -393,7 +393,7 @@ def random_structs(u, rng, count, prefix='R'):
             if rng.chance(1, 6) and (is_scalar(t) or t[0] == 'string'):
                 t = ('ptr', t)
                 req = 'optional'
-            nocopy = t[0] in ('string', 'binary') and rng.chance(1, 8)
+            nocopy = (t[0] in ('string', 'binary') or (t[0] == 'ptr' and t[1][0] in ('string', 'binary'))) and rng.chance(1, 4)
             fields.append(Field(fid, t, req, nocopy=nocopy))
         # self reference now and then
         if rng.chance(1, 6):
